@@ -19,7 +19,7 @@ package cctl
 // the live cache entries, and the monitors, with every time replaced by (macro age in Eps units capped at 70 s,
 // rank among all times of the state). Expired cache entries are dropped (Get treats them as absent, Set
 // overwrites them). Monitors are part of the key (last write, "a run after the last write completed", content
-// versions of each key within the longest TTL window, live modelled query entries). That is world.canonExact;
+// versions of each key within the longest TTL window, ). That is world.canonExact;
 // the search deduplicates by the smaller world.canon (canon.go), which keeps of every time only what the code
 // can still compare, and CCTL_CANON=exact cross-checks the one against the other (bisimulation on the explored part).
 //
@@ -94,20 +94,6 @@ func (w *world) account(c0 int) {
 	}
 }
 
-// checkInv is the query-cache clause in its direct form: while a query entry populated before the last write
-// could still be alive, and a run that started after that write has completed, the invalidation time handed
-// to a request must not be older than the write (an entry is used iff its LastModified is after that time).
-func (w *world) checkInv(inv time.Time, invAfter bool) (string, string) {
-	if w.cfg.Mode != "query" || !invAfter || !w.haveWrite {
-		return "", ""
-	}
-	if age := w.cur().Sub(w.lastWrite); inv.Before(w.lastWrite) && age/Eps < w.cfg.maxTTL(QueryTTL)/Eps {
-		return "cctl-invalidation-time-older-than-last-write-while-earlier-query-entries-may-live" + w.sfx(),
-			fmt.Sprintf("DetermineInvalidationTime returned %s although an invalidation run that started after the last write (%.6fs ago) has completed and a query-cache entry populated just before that write lives for %v: such an entry is trusted again", relTime(inv, w.cur()), age.Seconds(), w.cfg.maxTTL(QueryTTL))
-	}
-	return "", ""
-}
-
 func (w *world) sfx() string {
 	if w.cfg.Jitter > 0 {
 		return "/jitter"
@@ -155,32 +141,29 @@ func (w *world) hstep(e string) (sig, desc string) {
 		want := w.content(qAPI(k))
 		w.ctl.VerifWait()
 		w.account(c0)
-		if s, d := w.checkInv(inv, inv0); s != "" {
-			return s, d
-		}
 		switch {
+		case w.badTTL != "":
+			return "cctl-query-entry-ttl" + w.sfx(), w.badTTL
 		case !w.held(qAPI(k), ans):
-			return "cctl-query-answer-the-key-never-held" + w.sfx(), fmt.Sprintf("modelled query read q%d (hit=%v) answered [%s]; the key never held that (now [%s])", k, hit, ans, want)
+			return "cctl-query-answer-the-key-never-held" + w.sfx(), fmt.Sprintf("Check q%d through CachedCheckResolver (hit=%v) answered [%s]; the key never held that (now [%s])", k, hit, ans, want)
 		case inv0 && ans != want:
-			return "cctl-stale-query-answer-after-completed-invalidation" + w.sfx(), fmt.Sprintf("modelled query read q%d (hit=%v, invalidation time %s) answered [%s] although an invalidation run that started after the last write has completed; the store holds [%s]", k, hit, relTime(inv, w.cur()), ans, want)
+			return "cctl-stale-query-answer-after-completed-invalidation" + w.sfx(), fmt.Sprintf("Check q%d through CachedCheckResolver (hit=%v, invalidation time from the controller: %s) answered [%s] although an invalidation run that started after the last write has completed; the store holds [%s]", k, hit, relTime(inv, w.cur()), ans, want)
 		}
 	case e == "trig":
-		inv0, c0 := w.invAfter, w.clSets
-		inv := w.ctl.DetermineInvalidationTime(ctx, storeID)
+		c0 := w.clSets
+		w.ctl.DetermineInvalidationTime(ctx, storeID)
 		w.ctl.VerifWait()
 		w.account(c0)
-		return w.checkInv(inv, inv0)
 	case e == "force" || e == "slow" || e == "fail":
 		c0 := w.clSets
 		w.slowNext, w.failNext = e == "slow", e == "fail"
 		if w.cfg.Mode == "query" {
 			// query-cache configuration: runs are only ever started through DetermineInvalidationTime
-			inv0 := w.invAfter
-			inv := w.ctl.DetermineInvalidationTime(ctx, storeID)
+			w.ctl.DetermineInvalidationTime(ctx, storeID)
 			w.ctl.VerifWait()
 			w.slowNext, w.failNext = false, false
 			w.account(c0)
-			return w.checkInv(inv, inv0)
+			return "", ""
 		}
 		w.ctl.InvalidateIfNeeded(ctx, storeID)
 		w.ctl.VerifWait()
@@ -290,10 +273,6 @@ func (w *world) clone() *world {
 	c.changelog = append([]change{}, w.changelog...)
 	for k, v := range w.vers {
 		c.vers[k] = append([]cver{}, v...)
-	}
-	for k, q := range w.qm {
-		x := *q
-		c.qm[k] = &x
 	}
 	c.lastWrite, c.haveWrite, c.invAfter = w.lastWrite, w.haveWrite, w.invAfter
 	c.rcOK, c.clSets, c.runs, c.badTTL = w.rcOK, w.clSets, w.runs, w.badTTL
